@@ -9,9 +9,11 @@ from . import c06
 from sa.decide import Walker, completions, cmp_parts
 from sa.canon import canon_list
 
-TECHNIQUE = ("loop-template rules (cycle guard, strictly growing visited set / strictly consumed chain) "
-             "by dominance inside each iteration, guards-before-use by dominance, writer/reader inverse-pair "
-             "check between every element class's constructor and its to_dict via provenance expansion")
+TECHNIQUE = ('loop templates decided on the decision table of one iteration (cycle guard, strictly growing visited '
+             'set / strictly consumed chain; shared chain-walk tables), loop census by source location, '
+             'guards-before-use by must-facts with local names expanded, closed-world field conditions of the '
+             'constructors, no-escape rule for is_valid, writer/reader inverse-pair check between every element '
+             "class's constructor and its to_dict via provenance expansion")
 EXPLANATION = (
     "Static analysis of /repo's current source (nothing executed). Decides: every unbounded loop of "
     "certificate_v1.py has a terminating template - the parse walk raises on a repeated element name, "
